@@ -203,7 +203,13 @@ def run_property(prop, tier, seed, args):
     violations = []
     known_hit = []
     replays = (runtime or {}).get("replays", {})
-    os.makedirs(os.path.join(VERIF, "replays", prop), exist_ok=True)
+    rdir = os.path.join(VERIF, "replays", prop)
+    os.makedirs(rdir, exist_ok=True)
+    for fn_ in os.listdir(rdir):  # replay files are rewritten on every run
+        try:
+            os.unlink(os.path.join(rdir, fn_))
+        except OSError:
+            pass
     baseline = load_baseline().get(prop)
     for o in refuted:
         rp = replays.get(o.name, {})
@@ -334,7 +340,7 @@ def run_property(prop, tier, seed, args):
         "not_decided": info.get("not_decided", []),
         "known_findings": [{"obligation": o.name, "what": f.get("what")} for o, f in known_hit],
         "missing_baseline_obligations": missing,
-        "explanation": info.get("explanation", "") + (" | run-time contract harness: " + json.dumps({k: {kk: vv for kk, vv in v.items() if kk != "failures"} for k, v in (runtime or {}).get("units", {}).items()})[:1500] if runtime else ""),
+        "explanation": (info.get("explanation") or "contract-based deductive check: obligations generated from /repo's current source by pyvc; see obligations/discharged/by_backend and the lists not_decided, bounded_standins, bounded_only_units, known_findings") + (" | run-time contract harness: " + json.dumps({k: {kk: vv for kk, vv in v.items() if kk != "failures"} for k, v in (runtime or {}).get("units", {}).items()})[:1500] if runtime else ""),
         "bounded_standins": (runtime or {}).get("bounded", []),
         "crosscheck": {k: {kk: vv for kk, vv in v.items() if kk in ("samples", "clauses_evaluated", "failed")} for k, v in (runtime or {}).get("units", {}).items()},
         "exit_code": exit_code,
